@@ -78,7 +78,8 @@ def plan(run):
     P.append(('numpy', (9, 5, 40), "8", (4, -1, 256), {'rate_true': 8}))
     P.append(('numpy', (9, 9, 9), -1, (16, 16, 4), {'rate_true': 32}))
     # SEG-Y routes
-    segy_shapes = [(5, 6, 70), (9, 4, 33)] if quick else [(5, 6, 70), (9, 4, 33), (4, 4, 64), (2, 2, 2), (13, 9, 130), (8, 8, 8)]
+    # inline counts below, at and above a multiple of the block height (the last plane set full / short)
+    segy_shapes = [(5, 6, 70), (9, 4, 33), (8, 5, 20), (16, 3, 9), (4, 4, 8)] if quick else [(5, 6, 70), (9, 4, 33), (4, 4, 64), (2, 2, 2), (13, 9, 130), (8, 8, 8), (8, 5, 20), (16, 3, 9), (12, 7, 9), (24, 2, 5)]
     for shape in segy_shapes:
         for rate, bs in ((16, None), (32, (8, 8, 16)), (8, (4, 4, -1)), (32, (4, 8, 32))):
             for route, opts in (('segy', {'fmt': 5}), ('segy', {'fmt': 1}), ('segy-iops', {'fmt': 5}), ('segy-iops', {'fmt': 1}),
